@@ -127,7 +127,7 @@ def main(ctx):
         "distribution": {"recipes": recipes, "answers": stats},
         "traces_validated_against_impl": n_cases,
         "unsat_unconfirmed": stats["unsat_unconfirmed"],
-        "not_yet_proved": [],
+        "not_yet_proved": ["validity of CaDiCaL's answers (C++ code; validated per run, see assumptions)"],
     })
     ctx.assumptions += [
         "CaDiCaL's answers are valid (validated on every run against the contract and the verified reference solver, never proved)",
